@@ -2870,9 +2870,9 @@ class Set(Collection):
                 result.update(rentity._fetch_objects(cursor, attr_offsets))
         else:
             pk_len = len(entity._pk_columns_)
-            m2m_dict = defaultdict(set)
             for i in range(0, len(objects), max_batch_size):
                 batch = objects[i:i+max_batch_size]
+                m2m_dict = defaultdict(set)
                 sql, adapter = attr.construct_sql_m2m(len(batch))
                 arguments = adapter(batch)
                 cursor = database._exec_sql(sql, arguments)
